@@ -27,38 +27,36 @@ def proof_part(run, prop):
 
 
 def compare_outputs(run, driver, impl, cases, expand, tag="x", shards=vlib.NPROC):
-    """Runs model and implementation over the same case lines; returns (n_results, [(case, model, impl)])."""
-    mo = vlib.run_sharded(driver, cases, run.workdir, tag + "_model", shards)
-    io = vlib.run_sharded(impl, cases, run.workdir, tag + "_impl", shards)
-    diffs = []
-    if len(mo) != len(io):
-        raise vlib.MachineryError("model printed %d results, implementation %d" % (len(mo), len(io)))
-    if mo != io:
-        explicit = (e for c in cases for e in expand(c))
-        for c, m, i in zip(explicit, mo, io):
-            if m != i:
-                diffs.append((c, m, i))
-                if len(diffs) >= 200:
+    """Runs model and implementation over the same case lines; returns (n_results, [(case, model, impl)]).
+    Streaming: shard outputs are compared as files (hundreds of millions of lines in the thorough tier);
+    only a shard that differs is walked line by line."""
+    import itertools
+    import subprocess
+    mf = vlib.run_sharded_files(driver, cases, run.workdir, tag + "_model", shards)
+    jf = vlib.run_sharded_files(impl, cases, run.workdir, tag + "_impl", shards)
+    diffs, total = [], 0
+    for ((a, b), mfile), (_, ifile) in zip(mf, jf):
+        same = subprocess.call(["cmp", "-s", mfile, ifile]) == 0
+        nm = int(subprocess.check_output(["wc", "-l", mfile]).split()[0])
+        ni = nm if same else int(subprocess.check_output(["wc", "-l", ifile]).split()[0])
+        if nm != ni:
+            raise vlib.MachineryError("model printed %d results, implementation %d (shard %s)" % (nm, ni, mfile))
+        # distinct non-trivial outcomes and samples: from the head of every shard (bounded memory)
+        with open(mfile) as fm, open(ifile) as fi:
+            explicit = (e for c in cases[a:b] for e in expand(c))
+            for k, (c, m, i) in enumerate(zip(explicit, fm, fi)):
+                if k >= 200000 and same:
                     break
-    run.evaluations += len(mo)
-    # distinct non-trivial outcomes: anything that is not the plain "too short" error
-    for m in mo:
-        if m != "Err IncompleteData":
-            run.nontrivial.add(m)
-    k = 0
-    for c in cases:
-        for e in expand(c):
-            if k in (5, 300, 70000):
-                run.sample({"case": e, "model": mo[k], "impl": io[k]})
-            k += 1
-            if k > 70000:
-                break
-        if k > 70000:
-            break
-    if not run.samples and mo:
-        c0 = next(expand(cases[0]))
-        run.sample({"case": c0, "model": mo[0], "impl": io[0]})
-    return len(mo), diffs
+                m, i = m.rstrip("\n"), i.rstrip("\n")
+                if k < 200000 and m != "Err IncompleteData":
+                    run.nontrivial.add(m)
+                if total + k in (5, 300, 70000) or (not run.samples and k == 0):
+                    run.sample({"case": c, "model": m, "impl": i})
+                if m != i and len(diffs) < 200:
+                    diffs.append((c, m, i))
+        total += nm
+    run.evaluations += total
+    return total, diffs
 
 
 def impl_only(crate, binname, replay_path):
